@@ -256,6 +256,9 @@ def run(chk):
     handwritten(chk, it)
     n1 = spec_matrix(chk, src, 2 if chk.tier == "quick" else 3)
     n2, nobj = marker_universe(chk)
+    # state attached outside __eq__/__hash__ must agree with the compared fields on every operator result (rule R-seeded of the exploration)
+    st = mx.explore(chk, "collect", budget2=400 if chk.tier == "quick" else 5000)
+    chk.analysed["operator_results_checked_for_attached_state"] = st["level1_ops"] + st["level2_ops"]
     uncompared_fields(chk, it, dcs)
     chk.exhaustive = False
     chk.analysed.update({"dataclasses": [c.name for c in dcs], "specifier_eq_pairs": n1, "marker_objects": nobj, "marker_pairs_compared": n2})
